@@ -78,6 +78,10 @@ Proof.
   intro a. specialize (H a). apply andb_true_iff in H as [H1 H2].
   split; apply N.eqb_eq; assumption.
 Qed.
+Lemma S_byte0 a : byte0 (tget S_t (b2n a)) = b2n (sboxb a).
+Proof. apply S_b0. Qed.
+Lemma Si_byte0 a : byte0 (tget Si_t (b2n a)) = b2n (inv_sboxb a).
+Proof. apply Si_b0. Qed.
 
 Definition enc_tbl_ok (a : byte) : bool :=
   N.eqb (byte3 (tget T1_t (b2n a))) (b2n (gmulb 2 (sboxb a))) &&
@@ -326,8 +330,11 @@ Definition st_of_w4 (t : w4) : state :=
 Lemma wcol_of_word w : wcol w (col_of_word w).
 Proof.
   unfold col_of_word. cbn [wcol].
-  split; [|split; [|split]]; symmetry; apply b2n_n2b_small;
-    first [apply byte3_lt | apply byte2_lt | apply byte1_lt | apply byte0_lt].
+  split; [|split; [|split]]; symmetry; apply b2n_n2b_small.
+  - exact (byte3_lt w).
+  - exact (byte2_lt w).
+  - exact (byte1_lt w).
+  - exact (byte0_lt w).
 Qed.
 Lemma wst_of_w4 t : wst t (st_of_w4 t).
 Proof. destruct t. cbn [wst st_of_w4]. repeat split; apply wcol_of_word. Qed.
@@ -414,7 +421,7 @@ Proof.
   change (N.land (tget S_t (b2n b)) 255) with (byte0 (tget S_t (b2n b))).
   change (N.land (tget S_t (b2n c)) 255) with (byte0 (tget S_t (b2n c))).
   change (N.land (tget S_t (b2n d)) 255) with (byte0 (tget S_t (b2n d))).
-  rewrite !(proj1 (S_b0 _)), K3, K2, K1, K0. reflexivity.
+  rewrite !S_byte0, K3, K2, K1, K0. unfold xor_byte. reflexivity.
 Qed.
 Lemma out4_Si_ok ta tb tc td tt a b c d kc :
   byte3 ta = b2n a -> byte2 tb = b2n b -> byte1 tc = b2n c -> byte0 td = b2n d -> wcol tt kc ->
@@ -428,7 +435,7 @@ Proof.
   change (N.land (tget Si_t (b2n b)) 255) with (byte0 (tget Si_t (b2n b))).
   change (N.land (tget Si_t (b2n c)) 255) with (byte0 (tget Si_t (b2n c))).
   change (N.land (tget Si_t (b2n d)) 255) with (byte0 (tget Si_t (b2n d))).
-  rewrite !(proj1 (Si_b0 _)), K3, K2, K1, K0. reflexivity.
+  rewrite !Si_byte0, K3, K2, K1, K0. unfold xor_byte. reflexivity.
 Qed.
 
 Lemma enc_final_ok t k s ks : wst t s -> wst k ks ->
@@ -503,7 +510,7 @@ Lemma block_words_ok b : length b = 16%nat -> wst (block_words b) (state_of_byte
 Proof.
   intro H. destruct (length16 b H) as (x0 & x1 & x2 & x3 & x4 & x5 & x6 & x7 & x8 & x9 & x10 & x11 & x12 & x13 & x14 & x15 & ->).
   cbn [block_words word_at bget nth state_of_bytes col_of_bytes bnth Nat.add wst].
-  repeat split; apply compact_word_ok.
+  split; [|split; [|split]]; apply compact_word_ok.
 Qed.
 
 Lemma state_bytes_roundtrip s : state_of_bytes (bytes_of_state s) = s.
@@ -579,4 +586,100 @@ Qed.
 Lemma decrypt_rk_length ke b : (2 <= length ke)%nat -> length b = 16%nat -> length (decrypt_rk (Kd_of_Ke ke) b) = 16%nat.
 Proof.
   intros Hl Hb. rewrite (decrypt_rk_spec ke _ b (Forall2_wst_map ke) Hl Hb). apply bytes_of_state_length.
+Qed.
+
+(* ---- the key schedule produces rounds+1 rows ---------------------------------------- *)
+
+Lemma blen_eq_nat {A} (l : list A) n : blen l = N.of_nat n -> length l = n.
+Proof. unfold blen. lia. Qed.
+
+Lemma expand_Ke_length_16 k : length k = 16%nat -> length (expand_Ke k) = 11%nat.
+Proof.
+  intro H. do 16 (destruct k as [|? k]; [discriminate H|]). destruct k; [|discriminate H].
+  vm_compute. reflexivity.
+Qed.
+Lemma expand_Ke_length_24 k : length k = 24%nat -> length (expand_Ke k) = 13%nat.
+Proof.
+  intro H. do 24 (destruct k as [|? k]; [discriminate H|]). destruct k; [|discriminate H].
+  vm_compute. reflexivity.
+Qed.
+Lemma expand_Ke_length_32 k : length k = 32%nat -> length (expand_Ke k) = 15%nat.
+Proof.
+  intro H. do 32 (destruct k as [|? k]; [discriminate H|]). destruct k; [|discriminate H].
+  vm_compute. reflexivity.
+Qed.
+
+Lemma aes_key_ok_cases k : aes_key_ok k = true ->
+  length k = 16%nat \/ length k = 24%nat \/ length k = 32%nat.
+Proof.
+  unfold aes_key_ok. intro H.
+  apply orb_true_iff in H as [H|H]; [apply orb_true_iff in H as [H|H]|]; apply N.eqb_eq in H.
+  - left. apply blen_eq_nat. exact H.
+  - right; left. apply blen_eq_nat. exact H.
+  - right; right. apply blen_eq_nat. exact H.
+Qed.
+
+Lemma expand_Ke_rows k : aes_key_ok k = true -> (2 <= length (expand_Ke k))%nat.
+Proof.
+  intro H. destruct (aes_key_ok_cases k H) as [L|[L|L]].
+  - rewrite (expand_Ke_length_16 k L). lia.
+  - rewrite (expand_Ke_length_24 k L). lia.
+  - rewrite (expand_Ke_length_32 k L). lia.
+Qed.
+
+Lemma aes_key_ok_eq k : aes_key_ok k = key_ok k.
+Proof. reflexivity. Qed.
+
+(* ---- the block functions handed to the rest of the development ---------------------- *)
+
+Lemma blen16 (b : bytes) : (blen b =? 16) = true <-> length b = 16%nat.
+Proof. rewrite N.eqb_eq. unfold blen. lia. Qed.
+
+Theorem aes_E_length k b : length (aes_E k b) = length b.
+Proof.
+  unfold aes_E, aes_encrypt_block.
+  destruct (aes_key_ok k) eqn:Ek; cbn [negb]; [|reflexivity].
+  destruct (blen b =? 16) eqn:Eb; cbn [negb]; [|reflexivity].
+  apply blen16 in Eb. rewrite Eb. apply encrypt_rk_length; [apply expand_Ke_rows, Ek | exact Eb].
+Qed.
+Theorem aes_D_length k b : length (aes_D k b) = length b.
+Proof.
+  unfold aes_D, aes_decrypt_block.
+  destruct (aes_key_ok k) eqn:Ek; cbn [negb]; [|reflexivity].
+  destruct (blen b =? 16) eqn:Eb; cbn [negb]; [|reflexivity].
+  apply blen16 in Eb. rewrite Eb. apply decrypt_rk_length; [apply expand_Ke_rows, Ek | exact Eb].
+Qed.
+
+Theorem aes_E_len : forall k b, length b = 16%nat -> length (aes_E k b) = 16%nat.
+Proof. intros k b H. rewrite aes_E_length. exact H. Qed.
+Theorem aes_D_len : forall k b, length b = 16%nat -> length (aes_D k b) = 16%nat.
+Proof. intros k b H. rewrite aes_D_length. exact H. Qed.
+
+(* decryption inverts encryption: every key, every block (where Python raises, both
+   functions are the identity) *)
+Theorem aes_DE_total : forall k b, aes_D k (aes_E k b) = b.
+Proof.
+  intros k b. unfold aes_D, aes_E, aes_decrypt_block, aes_encrypt_block.
+  destruct (aes_key_ok k) eqn:Ek; cbn [negb]; [|reflexivity].
+  destruct (blen b =? 16) eqn:Eb; cbn [negb].
+  - pose proof (proj1 (blen16 b) Eb) as Hb.
+    pose proof (encrypt_rk_length (expand_Ke k) b (expand_Ke_rows k Ek) Hb) as Hl.
+    rewrite (proj2 (blen16 _) Hl). cbn [negb].
+    apply decrypt_encrypt_rk; [apply expand_Ke_rows, Ek | exact Hb].
+  - rewrite Eb. reflexivity.
+Qed.
+Theorem aes_DE : forall k b, key_ok k = true -> length b = 16%nat -> aes_D k (aes_E k b) = b.
+Proof. intros k b _ _. apply aes_DE_total. Qed.
+(* in the shape of the hypotheses of Proofs/CbcProofs.v (Section Inv) *)
+Theorem aes_DE16 : forall k b, length b = 16%nat -> aes_D k (aes_E k b) = b.
+Proof. intros k b _. apply aes_DE_total. Qed.
+
+(* with a usable key and block the total functions are what AES(key).encrypt/decrypt return *)
+Lemma aes_E_block k b : key_ok k = true -> length b = 16%nat -> aes_encrypt_block k b = Ok (aes_E k b).
+Proof.
+  intros Hk Hb. unfold aes_E, aes_encrypt_block. rewrite aes_key_ok_eq, Hk, (proj2 (blen16 b) Hb). reflexivity.
+Qed.
+Lemma aes_D_block k b : key_ok k = true -> length b = 16%nat -> aes_decrypt_block k b = Ok (aes_D k b).
+Proof.
+  intros Hk Hb. unfold aes_D, aes_decrypt_block. rewrite aes_key_ok_eq, Hk, (proj2 (blen16 b) Hb). reflexivity.
 Qed.
